@@ -298,7 +298,7 @@ class C19(core.Check):
         'inverted-range:numeric_bytecode', 'inverted-range:relative_address', 'inverted-range:relative_address/zero-bound',
         'inverted-range:numeric_bytecode/zero-bound', 'zone:inverted', 'zone:beyond-address-width',
         'origin-below-redefined-GLOBAL', 'instruction-without-bytecode', 'variant-without-bytecode', 'unknown-operand-type',
-        'enumeration-key-is-register', 'isa-version-not-semver', 'gate:min_version', 'gate:require', 'gate:require/name-from-file-name', 'fmt:yaml', 'fmt:json']}
+        'enumeration-key-is-register', 'isa-version-not-semver', 'gate:min_version', 'gate:require', 'gate:require/name-from-file-name', 'fmt:yaml', 'fmt:json', 'optional-part-shape', 'optional-part:registers-without-value']}
 
     def run(self, isa, fmt, src='.byte 0\n'):
         fn, text = isamod.render_isa(isa, fmt)
@@ -323,6 +323,33 @@ class C19(core.Check):
                 f2 = 'yaml' if (gen_isa.needs_yaml(d) or rng.random() < 0.3) else 'json'
                 yield {'runs': [self.run(d, f2)], 'meta': {'expect': 'REJECT', 'what': name, 'style': style},
                        'tags': [name, 'fmt:' + f2]}
+        # optional parts written in every shape that means "nothing here" (key absent, empty, or without a value)
+        shapes = {
+            'registers-without-value': lambda d: d['general'].__setitem__('registers', None),
+            'registers-empty-list': lambda d: d['general'].__setitem__('registers', []),
+            'macros-empty': lambda d: d.__setitem__('macros', {}),
+            'macros-without-value': lambda d: d.__setitem__('macros', None),
+            'predefined-empty': lambda d: d.__setitem__('predefined', {}),
+            'predefined-empty-lists': lambda d: d.__setitem__('predefined', {'constants': [], 'data': [], 'memory_zones': [], 'symbols': []}),
+            'operands-count-0': lambda d: d['instructions']['nop'].__setitem__('operands', {'count': 0}),
+            'operands-without-value': lambda d: d['instructions']['nop'].__setitem__('operands', None),
+            'variants-empty': lambda d: d['instructions']['nop'].__setitem__('variants', []),
+            'no-identifier': lambda d: d['general'].pop('identifier'),
+            'no-description': lambda d: d.pop('description'),
+            'description-without-value': lambda d: d.__setitem__('description', None),
+            'origin-0': lambda d: d['general'].__setitem__('origin', 0),
+            'symbol-value-number': lambda d: d.__setitem__('predefined', {'symbols': [{'name': 'SYM5', 'value': 5}]}),
+            'constant-value-text': lambda d: d.__setitem__('predefined', {'constants': [{'name': 'K5', 'value': '5'}]})}
+        import copy
+        for sname, f_ in shapes.items():
+            for fmt in ('json', 'yaml'):
+                d = isamod.base_isa()
+                d['instructions']['ldi'] = {'bytecode': {'value': 0xA9, 'size': 8}, 'operands': {'count': 1, 'operand_sets': {'list': ['imm8']}}}
+                d = copy.deepcopy(d)
+                f_(d)
+                src = 'nop\nldi 5\n' + ('.byte SYM5\n' if 'symbol' in sname else '') + ('.byte K5\n' if 'constant' in sname else '')
+                yield {'runs': [self.run(d, fmt, src)], 'meta': {'expect': 'ACCEPT', 'what': 'optional-part:' + sname, 'style': 'optional-part'},
+                       'tags': ['optional-part-shape', 'optional-part:' + sname, 'fmt:' + fmt]}
         # min_version grid
         for i, v in enumerate(MIN_GRID):
             for fmt in ('json', 'yaml'):
